@@ -18,7 +18,8 @@ import build_common as bc
 ID = 'C15'
 PROPS_FILE = 'Props/C15.v'
 MODEL_FILES = bc.MODEL_FILES
-K_NAME = 'K_text (extracted BuildDef.build_def vs fsic.build_model_definition: the class text byte for byte, converter call count)'
+K_NAME = ('K_text (extracted BuildDef.build_def vs fsic.build_model_definition: the class text byte for byte, converter call count) + '
+          'K_exec (extracted BuildRoutes.exec_M on the real text vs the attributes of the class CPython makes of it)')
 RULE = ('C01-grammar scripts (structured random ASTs incl. zero equations, verbatim-only, functions; a corpus; mutated scripts) and '
         'direct symbol lists no parser produces (symbols without equation or code, equations on non-endogenous symbols, names with '
         'quotes / backslashes / control and non-ASCII Latin-1 characters, name None, the empty list) x with_type_hints {True, False} x '
@@ -116,6 +117,7 @@ def impl(case):
     block = '\n\n'.join(textwrap.indent(r, PREFIX) for r in lg.returned)
     o['block_verbatim'] = text.endswith(block if len(block) else PREFIX + 'pass')
     o['block_empty'] = len(block) == 0
+    o['block'] = pc.hx(block if len(block) else PREFIX + 'pass')
     o['emitting'] = [[s.name, s.type.name] for s in syms if s.type in (fsic.parser.Type.ENDOGENOUS, fsic.parser.Type.VERBATIM)
                      and s.equation is not None and s.code is not None]
     if kind == 'default':
@@ -187,13 +189,32 @@ def _req(c):
     return 'B %s %s %d %s' % (bc.enc_src(c), bc.enc_opts(bc.full_opts(c['opts'])), 1 if c['hints'] else 0, c['conv'])
 
 
+def _exec_model_ok(x, o):
+    """K_exec: the tuple BuildRoutes.exec_M reads from the REAL text vs the attributes of the really executed class"""
+    ref = o.get('attrs', {}).get('exec_text')
+    if ref is None:
+        return True                                   # the real text does not execute (or was not executed): nothing to compare
+    if not x.startswith('O:'):
+        return False
+    f = x[2:].split('|')
+    return (bc.dec_names(f[0]) == ref['ENDOGENOUS'] and bc.dec_names(f[1]) == ref['EXOGENOUS'] and bc.dec_names(f[2]) == ref['PARAMETERS']
+            and bc.dec_names(f[3]) == ref['ERRORS'] and int(f[4]) == ref['LAGS'] and int(f[5]) == ref['LEADS'] and f[6] == o['block']
+            and ref['NAMES'] == ref['ENDOGENOUS'] + ref['EXOGENOUS'] + ref['PARAMETERS'] + ref['ERRORS'] and ref['CHECK'] == ref['ENDOGENOUS'])
+
+
 def correspond(cases, obs, tag, tier):
-    ans, errs = bc.run_driver([_req(c) for c in cases])
+    reqs = [_req(c) for c in cases]
+    xs = [i for i, o in enumerate(obs) if 'text' in o]
+    ans, errs = bc.run_driver(reqs + ['X ' + obs[i]['text'] for i in xs])
     if errs:
         return [], errs
+    xans = dict(zip(xs, ans[len(reqs):]))
     bad = []
     for i, (c, o) in enumerate(zip(cases, obs)):
         a = ans[i]
+        if i in xans and not _exec_model_ok(xans[i], o):
+            bad.append(i)
+            continue
         if a == 'U':
             continue
         if 'parse_exc' in o:
